@@ -226,11 +226,12 @@ func (fc *FakeChain) addRaw(hash [32]byte, kind string, height uint32, data []by
 // buildEBlock writes the entries and the EBlock.
 //
 // EBlock format (factom.EBlock.UnmarshalBinary):
-//   header: ChainID(32) BodyMR(32) PrevKeyMR(32) PrevFullHash(32) Sequence(4) DBHeight(4) ObjectCount(4)
-//   body:   32 byte objects: entry hashes, and after the entries of a minute
-//           the minute marker 00..0m (m = 1..10). The last object must be a marker.
-//   BodyMR = merkle root over the raw objects (leaves not hashed),
-//   KeyMR  = sha256(sha256(header) | BodyMR).
+//
+//	header: ChainID(32) BodyMR(32) PrevKeyMR(32) PrevFullHash(32) Sequence(4) DBHeight(4) ObjectCount(4)
+//	body:   32 byte objects: entry hashes, and after the entries of a minute
+//	        the minute marker 00..0m (m = 1..10). The last object must be a marker.
+//	BodyMR = merkle root over the raw objects (leaves not hashed),
+//	KeyMR  = sha256(sha256(header) | BodyMR).
 func (fc *FakeChain) buildEBlock(bd *blockData, chainID [32]byte, entries []RawEntry, minutes []int, prev *factom.EBlock) (*EBlockInfo, *factom.EBlock, error) {
 	if minutes != nil && len(minutes) != len(entries) {
 		return nil, nil, fmt.Errorf("TxMinute has %d elements for %d entries", len(minutes), len(entries))
@@ -325,13 +326,15 @@ func appendU32(b []byte, v uint32) []byte {
 // buildFBlock writes the factoid block.
 //
 // FBlock format (factom.FBlock.UnmarshalBinary):
-//   header: FChainID 00..0f (32) BodyMR(32) PrevKeyMR(32) PrevLedgerKeyMR(32)
-//           ExchangeRate(8) DBHeight(4) ExpansionSize(varint, 0) TxCount(4) BodySize(4)
-//   body:   transactions; a single 0x00 byte between/after them is an
-//           end-of-minute marker, exactly 10 markers per block. We put every
-//           transaction in minute 1, i.e. all 10 markers follow the last tx.
-//   BodyMR = merkle root over hashed leaves [tx0 .. txN, 10 x {0x00}],
-//   KeyMR  = merkle(sha256(header), BodyMR).
+//
+//	header: FChainID 00..0f (32) BodyMR(32) PrevKeyMR(32) PrevLedgerKeyMR(32)
+//	        ExchangeRate(8) DBHeight(4) ExpansionSize(varint, 0) TxCount(4) BodySize(4)
+//	body:   transactions; a single 0x00 byte between/after them is an
+//	        end-of-minute marker, exactly 10 markers per block. We put every
+//	        transaction in minute 1, i.e. all 10 markers follow the last tx.
+//	BodyMR = merkle root over hashed leaves [tx0 .. txN, 10 x {0x00}],
+//	KeyMR  = merkle(sha256(header), BodyMR).
+//
 // The library does not compare the header BodyMR with the computed one, but we
 // write the right value anyway.
 func (fc *FakeChain) buildFBlock(bd *blockData, prev *factom.FBlock) (*factom.FBlock, error) {
@@ -462,12 +465,13 @@ func toIOs(in []FTxIO) []factom.FactoidTransactionIO {
 // buildDBlock writes the directory block.
 //
 // DBlock format (factom.DBlock.UnmarshalBinary):
-//   header: Version 0x00, NetworkID(4) BodyMR(32) PrevKeyMR(32) PrevFullHash(32)
-//           Timestamp in minutes(4) DBHeight(4) BlockCount(4)
-//   body:   (ChainID(32) KeyMR(32))*, ascending by ChainID, starting with the
-//           admin block 00..0a, EC block 00..0c and factoid block 00..0f.
-//   BodyMR = merkle root over the hashed 64 byte elements,
-//   KeyMR  = sha256(sha256(header) | BodyMR).
+//
+//	header: Version 0x00, NetworkID(4) BodyMR(32) PrevKeyMR(32) PrevFullHash(32)
+//	        Timestamp in minutes(4) DBHeight(4) BlockCount(4)
+//	body:   (ChainID(32) KeyMR(32))*, ascending by ChainID, starting with the
+//	        admin block 00..0a, EC block 00..0c and factoid block 00..0f.
+//	BodyMR = merkle root over the hashed 64 byte elements,
+//	KeyMR  = sha256(sha256(header) | BodyMR).
 func (fc *FakeChain) buildDBlock(bd *blockData, prev *factom.DBlock) (*factom.DBlock, error) {
 	type pair struct{ chain, keymr [32]byte }
 	// The admin and EC blocks are never fetched by pegnetd; any hash will do.
